@@ -97,7 +97,9 @@ def _r1(chk, repo, conj):
         ci = repo.cls(f"{EXP}:{pair}")
         f_src = repo.method(ci, "validate_target")[1]
         from .common import canon_fn
-        f = canon_fn(repo, ci, f_src, 1)
+        # checks shared by the pairs may live in a private method of the base class: inlined (the probing helpers the rule names are module functions)
+        from .common import canon_keep
+        f = canon_keep(repo, ci, f_src, set(repo.mod(EXP).functions), subst=True)
         g = CFG(f)
         tests = {_norm(t.ast): t for t in g.tests()}
         problems = []
